@@ -145,7 +145,7 @@ def run(ctx):
         b = prog.one(q)
         bba = BA.of(b)
         pred = "is_target" if "targets" in q else "is_source"
-        ok = bool(bba.calls(r"state::Files::list")) and bool(bba.calls(r"state::File::" + pred))
+        ok = bool(bba.calls(r"state::Files::list")) and bool(common.calls_or_fnitem_calls(b, r"state::File::" + pred))
         prints = bba.calls(r"std::io::stdio::_print")
         ctx.ob("R17.4", "%s|lists-Files::list-filtered-by-%s" % (b.key, pred), ok and bool(prints), where=b.span, detail="iterates Files::list and prints records satisfying %s" % pred)
     fl = prog.one(r"state::Files::list")
